@@ -156,6 +156,24 @@ pub fn build(e: &mut Ent, o: &Opts) -> ElfSpec {
         segs.push(Seg { ty: 1, vaddr: v, paddr, memsz, flags: e.below(8), align: 1 << e.below(5), data, offset: 0 });
         v += memsz + if e.chance(1, 2) { 0 } else { e.below(0x100) };
     }
+    let mut edge = false;
+    if !o.c12 && e.chance(1, 10) {
+        edge = true;
+        // edge layout: the highest segment ends exactly at (or a few bytes below) the end of DRAM
+        // (such an image leaves no room for a stack: the file then has no .stack section)
+        let top: u32 = 0x60_0000 - BASE;
+        let last = segs.len() - 1;
+        let slack = e.pick(&[0u32, 0, 1, 3, 4]);
+        let ms = segs[last].memsz;
+        if segs[last].vaddr + ms < top {
+            let bss_free = e.chance(1, 2);
+            if bss_free {
+                segs[last].memsz = segs[last].data.len() as u32;
+            }
+            segs[last].vaddr = top - slack - segs[last].memsz;
+            segs[last].paddr = segs[last].vaddr;
+        }
+    }
     if !o.c12 && e.chance(1, 3) {
         // PT_LOAD entries need not be sorted by address
         let k = e.below(nload as u32) as usize;
@@ -185,10 +203,15 @@ pub fn build(e: &mut Ent, o: &Opts) -> ElfSpec {
     } as usize;
     let cands: Vec<usize> = loads.iter().copied().filter(|&i| segs[i].data.len() >= 4 * ngot).collect();
     if !cands.is_empty() && (o.c12 || e.chance(5, 6)) {
-        let si = e.pick(&cands);
+        let si = if e.chance(1, 3) { *cands.iter().max_by_key(|&&i| segs[i].vaddr).unwrap() } else { e.pick(&cands) };
         let room = segs[si].data.len() - 4 * ngot;
-        let mut off = e.below(room as u32 + 1) as usize;
-        if e.chance(1, 2) {
+        // position inside the file-backed extent: flush at its start, flush at its end, or anywhere
+        let mut off = match e.below(5) {
+            0 => 0,
+            1 => room,
+            _ => e.below(room as u32 + 1) as usize,
+        };
+        if e.chance(1, 3) {
             off &= !3;
         }
         let mut entries = vec![];
@@ -251,7 +274,9 @@ pub fn build(e: &mut Ent, o: &Opts) -> ElfSpec {
     if let Some((a, s)) = got_sec {
         secs.push(mk(".got", 1, a, s, None));
     }
-    let stack_size = if o.c12 || e.chance(1, 2) {
+    let stack_size = if edge {
+        None
+    } else if o.c12 || e.chance(1, 2) {
         Some(match e.below(5) {
             0 => 0,
             1 => e.pick(&[0x400u32, 0x401, 0x3ff, 0x1000, 0xffff, 0x10000, 1, 2, 3]),
